@@ -404,8 +404,7 @@ def run(rep):
 def replay(rep, rp):
     import dask
     if rp.get('stream') == 'fs':
-        print('fs-stream replays are re-generated by the seed; ops were:', rp.get('ops'))
-        return False
+        return replay_fs(rep, rp)
     root = U.scratch()
     try:
         cfg = (rp['n'], rp['variant'], rp['nin'], rp['cutstyle'], rp['k'], rp['mode'], rp['compression'],
@@ -423,5 +422,69 @@ def replay(rep, rp):
         if bad:
             print('model differs')
         return not bad and not rep.violations
+    finally:
+        shutil.rmtree(root, ignore_errors=True)
+
+
+def _comp(j):
+    (ctor, args), = j.items()
+    return {'NPart': lambda a: f'part.{a[0]}.parquet', 'NSub': lambda a: f'part{a[0]}.parquet',
+            'NTmp': lambda a: f't{a[0]}', 'NMeta': lambda a: '_metadata', 'NCommon': lambda a: '_common_metadata',
+            'NStr': lambda a: a[0]}[ctor](args)
+
+
+def replay_fs(rep, rp):
+    """re-run a recorded op sequence of stream A on a fresh scratch directory"""
+    from fsspec.implementations.local import LocalFileSystem
+    fs = LocalFileSystem()
+    root = U.scratch()
+    try:
+        for pth, node in rp['initial']:
+            ap = os.path.join(root, *[_comp(c) for c in pth])
+            if 'Dir' in node:
+                os.makedirs(ap, exist_ok=True)
+            else:
+                os.makedirs(os.path.dirname(ap), exist_ok=True)
+                (ctor, args), = node['File'][0].items()
+                with open(ap, 'wb') as f:
+                    f.write(b'opaque:%d' % args[0] if ctor == 'COpaque' else b'')
+        f0 = F.fs_term(root, F.classify_opaque)
+        ops, obs = [], []
+        for d in rp['ops']:
+            kind, p = d[0], d[1]
+            pt = F.path_term(p)
+            ab = os.path.join(root, p)
+            try:
+                if kind == 'makedirs':
+                    ops.append(C.Rec('OpMakedirs', pt)); fs.makedirs(ab, exist_ok=True); obs.append(C.Rec('ObDone'))
+                elif kind == 'rm':
+                    ops.append(C.Rec('OpRm', pt)); fs.rm(ab, recursive=True); obs.append(C.Rec('ObDone'))
+                elif kind == 'write':
+                    ops.append(C.Rec('OpWrite', pt, C.Rec('COpaque', d[2])))
+                    with fs.open(ab, 'wb') as f:
+                        f.write(b'opaque:%d' % d[2])
+                    obs.append(C.Rec('ObDone'))
+                elif kind == 'read':
+                    ops.append(C.Rec('OpRead', pt))
+                    with fs.open(ab, 'rb') as f:
+                        data = f.read()
+                    obs.append(C.Rec('ObContent', C.Rec('COpaque', int(data.split(b':')[1]))))
+                elif kind == 'mv':
+                    ops.append(C.Rec('OpMove', pt, F.path_term(d[2]))); fs.mv(ab, os.path.join(root, d[2]))
+                    obs.append(C.Rec('ObDone'))
+                elif kind in ('ls', 'find'):
+                    ops.append(C.Rec('OpLs' if kind == 'ls' else 'OpFind', pt))
+                    out = getattr(fs, kind)(ab)
+                    obs.append(C.Rec('ObList', [F.path_term(os.path.relpath(x, root)) for x in out]))
+                else:
+                    ops.append(C.Rec({'exists': 'OpExists', 'isfile': 'OpIsfile', 'isdir': 'OpIsdir'}[kind], pt))
+                    obs.append(C.Rec('ObBool', bool(getattr(fs, kind)(ab))))
+            except Exception:  # noqa: BLE001
+                obs.append(C.Rec('ObRaised'))
+        f1 = F.fs_term(root, F.classify_opaque)
+        bad = C.coq_mismatches(FS_IMPORTS, 'run_ops_check', FS_CASE_TY, FS_RES_TY, [(f0, ops, f1)], [(obs, True, True)])
+        print('real :', C.jsonable(obs))
+        print('model:', C.coq_eval(FS_IMPORTS, f'run_ops_check {C.coq((f0, ops, f1))}'))
+        return not bad
     finally:
         shutil.rmtree(root, ignore_errors=True)
